@@ -195,10 +195,12 @@ Section Parser.
     let '(st1, ok) := skip_space st in
     if negb ok then st1 else
     match data st1 with
-    | 47 :: 47 :: _ =>
-        match index_byte 10 (data st1) with Some i => forward (i + 1) st1 | None => st1 end
-    | 47 :: 42 :: _ =>
-        match index_pair_from 42 47 (data st1) 0 with Some i => forward (i + 2) st1 | None => st1 end
+    | a :: b :: _ =>
+        if (a =? 47) && (b =? 47) then
+          match index_byte 10 (data st1) with Some i => forward (i + 1) st1 | None => st1 end
+        else if (a =? 47) && (b =? 42) then
+          match index_pair_from 42 47 (data st1) 0 with Some i => forward (i + 2) st1 | None => st1 end
+        else st1
     | _ => st1
     end.
 
